@@ -35,6 +35,19 @@ class Skip(Exception):
     """Case outside the property's domain (counted, never a verdict)."""
 
 
+class CaseTimeout(BaseException):
+    """A single case ran longer than the per-case wall-clock guard. This is never a verdict: the clause is
+    abandoned and the run ends as a harness error (exit 2, 'INCONCLUSIVE'), so that a library change that makes
+    a call spin forever cannot hang a check indefinitely. (BaseException: clause code catching Exception lets it through.)"""
+
+
+CASE_TIMEOUT_S = float(os.environ.get("VERIF_CASE_TIMEOUT", "900"))
+
+
+def _alarm(signum, frame):
+    raise CaseTimeout()
+
+
 def require(cond, msg, **ctx):
     if not cond:
         if ctx:
@@ -126,6 +139,7 @@ class ClauseStats:
         self.skipped = 0
         self.excluded_known = {}
         self.failures = []      # list of dicts
+        self.timeouts = []      # cases abandoned by the per-case wall-clock guard (inconclusive, never a verdict)
         self.exhaustive = False
         self.wall = 0.0
 
@@ -134,7 +148,8 @@ class ClauseStats:
                 "distinct_nontrivial": len(self.nt), "nt_hashes": sorted(self.nt),
                 "classes": self.classes, "samples": self.samples,
                 "nt_samples": self.nt_samples, "skipped_out_of_domain": self.skipped,
-                "excluded_known": self.excluded_known, "failures": self.failures,
+                "excluded_known": self.excluded_known, "failures": self.failures, "timeouts": self.timeouts[:3],
+                "n_timeouts": len(self.timeouts),
                 "exhaustive": self.exhaustive, "wall_s": round(self.wall, 2)}
 
 
@@ -182,8 +197,24 @@ def evaluate(clause, case, stats, known, budget=None):
     """Run one case; classify outcome. Returns None if OK / suppressed, or
     the exception if it is an unlisted violation."""
     stats.evaluations += 1
+    import signal
+    use_alarm = CASE_TIMEOUT_S > 0 and hasattr(signal, "setitimer")
+    if use_alarm:
+        try:
+            old = signal.signal(signal.SIGALRM, _alarm)
+            signal.setitimer(signal.ITIMER_REAL, CASE_TIMEOUT_S)
+        except ValueError:          # not in the main thread
+            use_alarm = False
     try:
-        info = clause.run(case)
+        try:
+            info = clause.run(case)
+        finally:
+            if use_alarm:
+                signal.setitimer(signal.ITIMER_REAL, 0)
+                signal.signal(signal.SIGALRM, old)
+    except CaseTimeout:
+        stats.timeouts.append(_sample(case))
+        return None
     except Skip:
         stats.skipped += 1
         return None
@@ -224,6 +255,8 @@ def drive(prop, clause, n_examples, seed, known, shrink_budget_s=90.0):
     state = {"first_fail_t": None, "best": None, "best_exc": None}
 
     def body(case):
+        if stats.timeouts:
+            return    # a case hit the wall-clock guard: abandon the clause (reported as inconclusive)
         if state["first_fail_t"] is not None and time.time() - state["first_fail_t"] > shrink_budget_s:
             return    # shrink budget used up: let Hypothesis finish quickly
         exc = evaluate(clause, case, stats, known)
@@ -264,6 +297,8 @@ def drive_exhaustive(prop, clause, cases, known, max_fail=1):
     stats = ClauseStats(clause.name + ":exhaustive")
     t0 = time.time()
     for case in cases:
+        if stats.timeouts:
+            break
         exc = evaluate(clause, case, stats, known)
         if exc is not None:
             stats.failures.append(record_failure(prop, clause, json.loads(canon(case)), known))
